@@ -42,12 +42,16 @@ def register(w):
         return r
 
     w.cls_of_np, w.cls_of_onnx = cls_of_np, cls_of_onnx
+    w.dtype_policy_relation = lambda code, dbl, r: policy_relation(code, dbl, r)
 
     def post_policy(c: Ctx):
         dt, dbl, r = c["dtype"], c["enable_double_precision"].term, c.result.term
         if isinstance(dt, VNone):
             return r == z3.If(dbl, DOUBLE, FLOAT)
-        code = dt.term
+        return policy_relation(dt.term, dbl, r)
+
+    def policy_relation(code, dbl, r):
+        """the element-type policy of the property: (numpy dtype code, precision flag) -> ONNX element type r"""
         exact_int = z3.And([z3.Implies(code == mem[nm], r == SPEC_NP_TO_ONNX[nm]) for nm in mem if nm.startswith(("int", "uint", "bool", "complex"))])
         return z3.And(
             # C09: the flag decides float32 / unknown floats; float16 and float64 keep their width
